@@ -187,7 +187,7 @@ package iavl
 // ---------------------------------------------------------------- mutable_tree.go: insertion
 
 //@ func (*MutableTree).recursiveSetLeaf(tree, node, key, value) (newSelf, updated, err)
-//@   props C01 C02 C11
+//@   props C01 C02 C11 C07
 //@   requires tree != nil && tree.ImmutableTree != nil
 //@   requires tree.unsavedFastNodeAdditions != nil && tree.unsavedFastNodeRemovals != nil && tree.unsavedFastNodeAdditions != tree.unsavedFastNodeRemovals
 //@   requires node != nil && valid(node) && node.subtreeHeight == 0 && value != nil
@@ -195,6 +195,8 @@ package iavl
 //@   ensures [shape] newSelf != nil && fresh(newSelf) && !inptr[newSelf] && valid(newSelf) && newSelf.nodeKey == nil && view(newSelf) == ins(old(view(node)), cntOf(key), cntOf(value))
 //@   ensures [updated] updated == has(old(view(node)), ord(key))
 //@   ensures [inptr] old(inptr[node]) ==> inptr[node]
+//@   ensures [overlay-records-the-write-and-forgets-a-pending-removal] !tree.skipFastStorageUpgrade ==> smhas[tree.unsavedFastNodeAdditions] == store(old(smhas[tree.unsavedFastNodeAdditions]), ord(key), true) && smhas[tree.unsavedFastNodeRemovals] == store(old(smhas[tree.unsavedFastNodeRemovals]), ord(key), false)
+//@   ensures [overlay-untouched-when-the-index-is-off] tree.skipFastStorageUpgrade ==> smhas[tree.unsavedFastNodeAdditions] == old(smhas[tree.unsavedFastNodeAdditions]) && smhas[tree.unsavedFastNodeRemovals] == old(smhas[tree.unsavedFastNodeRemovals])
 //@   ensures [frame] nframe(old(heap(N)), heap(N), old(na))
 //@   modifies inptr[node], smhas[tree.unsavedFastNodeAdditions], smval[tree.unsavedFastNodeAdditions], smhas[tree.unsavedFastNodeRemovals]
 
@@ -1218,6 +1220,7 @@ package iavl
 //@   callsite nodeDB).DeleteVersionsFrom [everything-above-target] arg0 == tree.ndb && arg1 == targetVersion + 1
 //@   callsite nodeDB).Commit [rollback-committed] arg0 == tree.ndb
 //@   callsite enableFastStorageAndCommitIfNotEnabled [index-rebuilt] !tree.skipFastStorageUpgrade && arg0 == tree
+//@   ensures [rollback-committed-on-every-success-path] err == nil ==> calls("nodeDB).Commit") == 1 && calls("nodeDB).DeleteVersionsFrom") == 1
 //@   ensures [index-rebuild-never-skipped] err == nil && !tree.skipFastStorageUpgrade ==> calls("MutableTree).enableFastStorageAndCommitIfNotEnabled") == 1
 //@   modifies *
 
